@@ -1,4 +1,7 @@
 import BddVerif.Props.C01
+import BddVerif.Lemmas.AlgoEqUtilSpec
+import BddVerif.Lemmas.AlgoEqApply
+import BddVerif.Lemmas.AlgoEqTernary
 #print axioms B.Props.C01.apply_pointwise
 #print axioms B.Props.C01.eager_lazy_same
 #print axioms B.Props.C01.apply_canonical_form
@@ -15,3 +18,15 @@ import BddVerif.Props.C01
 #print axioms B.Props.C01.table_checks_sound
 #print axioms B.Props.C01.not_pointwise
 #print axioms B.Props.C01.not_canonical_form
+#print axioms B.AlgoEqUtil.Bdd_not_eq_model
+#print axioms B.AlgoEqUtil.Bdd_not_canon
+#print axioms B.AlgoEqUtil.Bdd_eval_in_spec
+#print axioms B.AlgoEqUtil.Bdd_eval_in_eq_model_driver
+#print axioms B.apply_with_flip_eq_model
+#print axioms B.apply_with_flip_eq_canon
+#print axioms B.apply_with_flip_eq_model_driver
+#print axioms B.Bdd_binary_op_eq_model_driver
+#print axioms B.apply_with_flip_panics_mismatch
+#print axioms B.ternary_apply_eq_model
+#print axioms B.ternary_apply_eq_canon
+#print axioms B.Bdd_ternary_op_eq_model_driver
